@@ -775,3 +775,38 @@ def op_calls(F, fn, base_keys, max_wrapper_depth=1):
     wr = wrappers_of(F, base_keys)
     base = {f.path for k in base_keys for f in ([F.fn(k)] if F.fn(k) is not None else [])}
     return [c for c in fn.calls() if c.local_callee in base or wr.get(c.local_callee, 99) <= max_wrapper_depth]
+
+
+def variant_test_edges(fn, owner, field, enum, variant):
+    """CFG edges on which `<owner>.<field> == <enum>::<variant>` is known to hold, whatever the syntax: an `==`/`!=`
+    comparison with the variant constant, or a match / matches! on the field's discriminant. Returns [(src, tgt, line)]."""
+    out = []
+    want = '%s::%s' % (enum, variant)
+    for c in comparisons(fn):
+        a, b = c.sa(), c.sb()
+        if (a.has_field(owner, field) and want in b.aggs) or (b.has_field(owner, field) and want in a.aggs):
+            for tgt, rel in c.edges():
+                if rel == '==' and tgt is not None:
+                    out.append((c.bb, tgt, c.line))
+    for vs in variant_switches(fn):
+        if vs.get('enum') == enum and variant in vs['arms'] and vs['place'].field_owners() and vs['place'].field_owners()[-1] == (owner, field):
+            out.append((vs['bb'], vs['arms'][variant], vs['line']))
+            # matches!(x, V): the arm stores `true`, every other arm `false`, and a later branch tests that flag
+            flags = {}
+            for arm_name, tb in list(vs['arms'].items()) + [('*', vs['otherwise'])]:
+                if tb is None:
+                    continue
+                for st in fn.blocks[tb]['s']:
+                    rv = st['rv']
+                    if rv['k'] == 'use' and 'k' in rv['a'] and isinstance(rv['a']['k'].get('v'), bool) and not st['lhs'].get('p'):
+                        flags.setdefault(st['lhs']['l'], {})[arm_name] = rv['a']['k']['v']
+            for t, vals in flags.items():
+                if vals.get(variant) is True and all(v is False for k, v in vals.items() if k != variant) and len(vals) >= 2:
+                    for bs in bool_switches(fn):
+                        if bs['local'] == t or t in root_of(fn, bs['local']):
+                            out.append((bs['bb'], bs['t_true'], vs['line']))
+    return out
+
+
+def holds_variant_at(fn, block, owner, field, enum, variant):
+    return [e for e in variant_test_edges(fn, owner, field, enum, variant) if edge_dominates(fn, e[0], e[1], block)]
